@@ -486,8 +486,10 @@ func c20Phase(p *Prog, r *Report) {
 // c20SeriesId: the level can only follow "the supplied series" if the reader
 // keeps exactly the lines of the requested id: the id test must require the
 // id at the start of the line AND a separator as the very next character.
-func c20SeriesId(p *Prog, r *Report) {
-	r.Rule("C20.R6", "series selection: the time-series reader keeps a line only when the id filter accepts it, and the filter requires the requested id as line prefix followed immediately by a separator character (an id that merely starts with the requested id must not match); the read loop examines every line of the file", 3)
+func c20SeriesId(p *Prog, r *Report) { c20SeriesIdAs(p, r, "C20.R6") }
+
+func c20SeriesIdAs(p *Prog, r *Report, rule string) {
+	r.Rule(rule, "series selection: the time-series reader keeps a line only when the id filter accepts it, and the filter requires the requested id as line prefix followed immediately by a separator character (an id that merely starts with the requested id must not match); the read loop examines every line of the file", 3)
 	rd := p.Funcs["hermes.ReadGroundWaterTimeSeries"]
 	if rd == nil {
 		r.Ob("reader", "-", false, "ReadGroundWaterTimeSeries not found")
